@@ -146,6 +146,19 @@ pred ReaderInv(d) :=
   && 0 <= d.state.buf.len && d.state.buf.len <= d.state.pos
   && d.state.pos <= max(d.header.size, 0)
 
+func lzhuf.NewReader(r, crc16) (d, err)
+  props C08 C03 C04 C07
+  requires src: r != nil
+  ensures inv: err == nil ==> d != nil && ReaderInv(d)
+  ensures fresh: err == nil ==> d.state.pos == 0 && d.state.buf.len == 0 && d.err == nil && d.crc16 == crc16 && d.r.err == nil
+  loop 0 invariant d: d != nil && d.z != nil
+
+# the B2 format always carries (and the Reader verifies) the CRC-16
+func lzhuf.NewB2Reader(r) (d, err)
+  props C04 C03 C08
+  requires src: r != nil
+  ensures inv: err == nil ==> d != nil && ReaderInv(d) && d.crc16
+
 func lzhuf.(*Reader).Read(d, p) (n, err)
   props C08 C03
   requires inv: ReaderInv(d)
